@@ -32,6 +32,101 @@ def measure_cells():
         yield f"measure:{agg}:{'filtered' if filt else 'plain'}:{'format' if fmt else 'noformat'}:{expr}", dict(agg=agg, filt=filt, fmt=fmt, expr=expr)
 
 
+STRUCT_CELLS = ["pk_single", "pk_composite", "table_qualified", "sql_model", "rel_many_to_one", "rel_one_to_many", "rel_one_to_one",
+                "dim_time_month", "dim_numeric", "dim_boolean", "segment"]
+
+
+def build_struct_graph(kind):
+    from sidemantic import Dimension, Metric, Model, Relationship, Segment
+    from sidemantic.core.semantic_graph import SemanticGraph
+    g = SemanticGraph()
+    dims = [Dimension(name="status", type="categorical"), Dimension(name="created", type="time", sql="created_at", granularity="month" if kind == "dim_time_month" else "day")]
+    if kind == "dim_numeric":
+        dims.append(Dimension(name="qty_d", type="numeric", sql="qty"))
+    if kind == "dim_boolean":
+        dims.append(Dimension(name="is_big", type="boolean", sql="amount > 10"))
+    kw = dict(name="orders", primary_key="id", dimensions=dims, metrics=[Metric(name="m", agg="sum", sql="amount")])
+    if kind == "pk_single":
+        kw["primary_key"] = "order_key"
+    if kind == "pk_composite":
+        kw["primary_key"] = ["order_key", "line_no"]
+    if kind == "sql_model":
+        kw["sql"] = "SELECT * FROM orders WHERE amount > 0"
+    else:
+        kw["table"] = "analytics.orders" if kind == "table_qualified" else "orders"
+    if kind == "segment":
+        kw["segments"] = [Segment(name="done", sql="{model}.status = 'completed'")]
+    rels = []
+    if kind.startswith("rel_"):
+        t = kind[4:]
+        rels = [Relationship(name="customers", type=t, foreign_key="customer_id")]
+        g_customers = Model(name="customers", table="customers", primary_key="id", dimensions=[Dimension(name="tier", type="categorical")], metrics=[Metric(name="n", agg="count")])
+    kw["relationships"] = rels
+    if kind.startswith("rel_"):
+        g.add_model(g_customers)
+    g.add_model(Model(**kw))
+    return g
+
+
+def struct_attr(graph, kind):
+    """the attribute the cell is about, as found in a graph; (present, value)"""
+    m = graph.models.get("orders")
+    if m is None:
+        return None
+    if kind in ("pk_single", "pk_composite"):
+        return m.primary_key
+    if kind == "table_qualified":
+        return m.table
+    if kind == "sql_model":
+        return " ".join((m.sql or "").split()).lower() or None
+    if kind.startswith("rel_"):
+        r = next((r for r in m.relationships if r.name == "customers"), None)
+        return None if r is None else (r.type, r.foreign_key)
+    if kind == "dim_time_month":
+        d = m.get_dimension("created")
+        return None if d is None else (d.type, d.granularity)
+    if kind == "dim_numeric":
+        d = m.get_dimension("qty_d")
+        return None if d is None else d.type
+    if kind == "dim_boolean":
+        d = m.get_dimension("is_big")
+        return None if d is None else d.type
+    if kind == "segment":
+        sg = next((x for x in (m.segments or []) if x.name == "done"), None)
+        return None if sg is None else " ".join(sg.sql.split())
+    return None
+
+
+DEFAULTS = {"pk_single": ["id"], "pk_composite": ["id"], "table_qualified": ["orders", None], "sql_model": [None], "dim_time_month": [("time", "day"), ("time", None), ("categorical", None)],
+            "dim_numeric": ["categorical"], "dim_boolean": ["categorical"], "segment": [None]}
+
+
+def evaluate_struct(fmt, kind):
+    g0 = build_struct_graph(kind)
+    a0 = struct_attr(g0, kind)
+    try:
+        g1 = roundtrip(fmt, g0)
+    except Exception as e:  # noqa: BLE001
+        return {"outcome": "rejected", "fixed": True, "v0": a0, "v1": type(e).__name__}
+    if "orders" not in g1.models:
+        return {"outcome": "absent", "fixed": True, "v0": a0, "v1": None}
+    a1 = struct_attr(g1, kind)
+    norm = lambda v: list(v) if isinstance(v, (list, tuple)) else v
+    if norm(a1) == norm(a0):
+        outcome = "same"
+    elif a1 is None or a1 in DEFAULTS.get(kind, []) or norm(a1) in [norm(x) for x in DEFAULTS.get(kind, [])] or (kind.startswith("rel_") and a1 is None):
+        outcome = "lost"            # the format has no syntax for it / it falls back to the default: allowed, reported
+    else:
+        outcome = "changed"
+    fixed = True
+    try:
+        g2 = roundtrip(fmt, g1)
+        fixed = projection(g2) == projection(g1)
+    except Exception:  # noqa: BLE001
+        fixed = False
+    return {"outcome": outcome, "fixed": fixed, "v0": a0, "v1": a1}
+
+
 def build_graph(cell):
     from sidemantic import Dimension, Metric, Model, Relationship, Segment
     from sidemantic.core.semantic_graph import SemanticGraph
@@ -97,11 +192,14 @@ def same_value(a, b):
 
 def roundtrip(fmt, graph):
     root = tempfile.mkdtemp(prefix="c12_", dir=os.environ.get("VERIF_SCRATCH", "/tmp"))
+    import contextlib
+    import io
     try:
         a = adapter(fmt)
         target = os.path.join(root, EXPORTERS[fmt][1])
-        a.export(graph, target)
-        return adapter(fmt).parse(target)
+        with contextlib.redirect_stderr(io.StringIO()):      # grammar-based parsers print recoverable syntax errors
+            a.export(graph, target)
+            return adapter(fmt).parse(target)
     finally:
         shutil.rmtree(root, ignore_errors=True)
 
@@ -152,12 +250,14 @@ def translate(ck=None):
         for name, cell in cells:
             r = evaluate_cell(fmt, cell, con)
             matrix.append((fmt, name, r))
+        for kind in STRUCT_CELLS:
+            matrix.append((fmt, "struct:" + kind, evaluate_struct(fmt, kind)))
     known = json.load(open(ROOT / "known_findings.json"))
     known_cells = sorted({tuple(c) for f in known["findings"] if f["property"] == "C12" for c in f.get("cells", [])})
     q = lambda s: '"' + s + '"'
-    cname = {"same": ".same", "absent": ".absent", "unusable": ".unusable", "rejected": ".rejected", "changed": ".changed"}
+    cname = {"same": ".same", "absent": ".absent", "unusable": ".unusable", "rejected": ".rejected", "changed": ".changed", "lost": ".lost"}
     lines = ["/- GENERATED by harness/props/c12.py: export -> parse of the current tree on every cell of the exporter x measure-feature matrix — do not edit -/",
-             "namespace SideVerif.Gen", "", "inductive CellOutcome where | same | absent | unusable | rejected | changed", "  deriving DecidableEq, Repr", "",
+             "namespace SideVerif.Gen", "", "inductive CellOutcome where | same | absent | unusable | rejected | changed | lost", "  deriving DecidableEq, Repr", "",
              "structure Cell where", "  exporter : String", "  feature : String", "  outcome : CellOutcome", "  fixedPoint : Bool", "  deriving Repr", "",
              "def adapterMatrix : List Cell := ["]
     lines.append(",\n".join(f"  ⟨{q(f)}, {q(n)}, {cname[r['outcome']]}, {'true' if r['fixed'] else 'false'}⟩" for f, n, r in matrix) + "]")
@@ -176,23 +276,25 @@ def run(ck: Check):
     for fmt, name, r in matrix:
         if r["outcome"] == "changed":
             key = findings_by_cell.get((fmt, name))
-            ck.fail_input(f"{fmt}: metric survives export -> import but computes different values ({name})",
+            ck.fail_input(f"{fmt}: " + ("metric survives export -> import but computes different values" if name.startswith("measure:") else "model survives export -> import with a different key / source / relationship / dimension definition") + f" ({name})",
                           {"exporter": fmt, "feature": name, "before": str(r["v0"])[:400], "after": str(r["v1"])[:400]}, finding_key=key)
         if not r["fixed"]:
             key = findings_by_cell.get((fmt, name))
             ck.fail_input(f"{fmt}: a second round trip is not a fixed point of the first ({name})", {"exporter": fmt, "feature": name}, finding_key=key)
     ck.coverage.update({
         "evaluations": len(matrix), "distinct_nontrivial": stats["same"],
-        "rule": f"{len(FORMATS)} exporters x {len(list(measure_cells()))} measure cells (7 aggregation types x filtered/plain x with/without display format x column/product expression), exhaustive; each cell: export, parse, execute the metric grouped by a dimension on DuckDB against both graphs, second round trip compared by core projection",
+        "rule": f"{len(FORMATS)} exporters x ({len(list(measure_cells()))} measure cells: 7 aggregation types x filtered/plain x with/without display format x column/product expression; {len(STRUCT_CELLS)} structure cells: single/composite key, qualified table, sql model, three relationship types, time granularity, numeric/boolean dimension, segment), exhaustive; measure cells: export, parse, execute the metric grouped by a dimension on DuckDB against both graphs; structure cells: the attribute before/after (same / lost to the default / changed); second round trip compared by core projection",
         "stats": dict(stats), "traces_validated_against_impl": len(matrix),
     })
-    ck.assumptions += ["the matrix covers model-level measures (aggregation type, filter, expression, display format); dimension types, keys, relationships and segments are compared by C11/C13's round-trip arms and by the fixed-point projection here",
+    ck.assumptions += ["pairs of features are covered for measures (aggregation x filter x format x expression); structure features are single cells; `lost` (attribute falls back to its default) is allowed because the harness cannot know whether a format has syntax for it — it is counted in the evidence",
                        "a metric that does not survive (absent) or a model the format rejects is allowed by the property; `unusable` (survives but no longer compiles) is reported in the evidence, not as a violation"]
 
 
 def replay(ck, rp):
     r = rp["replay"]
-    cell = dict(measure_cells())[r["feature"]]
-    out = evaluate_cell(r["exporter"], cell, fresh_db())
+    if r["feature"].startswith("struct:"):
+        out = evaluate_struct(r["exporter"], r["feature"][7:])
+    else:
+        out = evaluate_cell(r["exporter"], dict(measure_cells())[r["feature"]], fresh_db())
     print(out)
     return 1 if out["outcome"] == "changed" or not out["fixed"] else 0
